@@ -480,6 +480,7 @@ func runC20(res *Result, d *Driver, tier string, seed uint64) {
 	for h := 0; h < hist; h++ {
 		c20History(res, d, rng, fmt.Sprintf("verif-c20-%d-%d", os.Getpid(), h), ct, false, steps, "v1")
 	}
+	c20Partial(res, rng, ct, tier)
 	// ---- part B: concurrent creators on v1 ----
 	for r := 0; r < rounds; r++ {
 		name := fmt.Sprintf("verif-c20-race-%d-%d", os.Getpid(), r)
@@ -693,4 +694,120 @@ func c20V2Child(args []string) {
 	for _, m := range res.Mismatches {
 		fmt.Printf("V2BAD %s || %s || %s || %s || %s\n", m.What, m.Input, m.Impl, m.Key, m.Oracle)
 	}
+}
+
+// c20Partial: a group name that already exists in SOME of the v1 hierarchies only (an administrator made it for two
+// controllers, an earlier handle was destroyed half way): a creating call (New by name, New/Nest under a handle) followed
+// by Destroy must leave every directory that was there before, with the limits it carried.
+func c20Partial(res *Result, rng *Rng, ct *cgroup.Controllers, tier string) {
+	names := ct.Names()
+	if len(names) < 2 {
+		return
+	}
+	n := 12
+	if tier == "thorough" {
+		n = 300
+	}
+	parentName := fmt.Sprintf("verif-c20-part-%d", os.Getpid())
+	parent, err := cgroup.New(parentName, ct)
+	if err != nil {
+		res.Note("partial: cannot create the parent group: %v", err)
+		return
+	}
+	defer func() {
+		parent.Destroy()
+		for _, c := range names {
+			syscall.Rmdir(filepath.Join(cgroup.VerifBasePath, c, parentName))
+		}
+	}()
+	for i := 0; i < n; i++ {
+		how := []string{"New(name)", "handle.New(sub)", "handle.Nest(sub)"}[rng.Intn(3)]
+		name := fmt.Sprintf("verif-c20-partial-%d-%d", os.Getpid(), i)
+		rel := name
+		if how != "New(name)" {
+			rel = filepath.Join(parentName, "job"+itoa(i))
+		}
+		// a non-empty proper subset of the controllers, chosen at random (first, last, middle ones)
+		pre := map[string]bool{}
+		for len(pre) == 0 || len(pre) == len(names) {
+			pre = map[string]bool{}
+			for _, c := range names {
+				if rng.Chance(40) {
+					pre[c] = true
+				}
+			}
+		}
+		var preList []string
+		marks := map[string]string{}
+		for _, c := range names {
+			if !pre[c] {
+				continue
+			}
+			dd := filepath.Join(cgroup.VerifBasePath, c, rel)
+			if err := os.Mkdir(dd, 0755); err != nil {
+				continue
+			}
+			preList = append(preList, c)
+			switch c {
+			case "memory":
+				os.WriteFile(filepath.Join(dd, "memory.limit_in_bytes"), []byte("73400320"), 0644)
+				b, _ := os.ReadFile(filepath.Join(dd, "memory.limit_in_bytes"))
+				marks[c] = "memory.limit_in_bytes=" + strings.TrimSpace(string(b))
+			case "pids":
+				os.WriteFile(filepath.Join(dd, "pids.max"), []byte("37"), 0644)
+				marks[c] = "pids.max=37"
+			case "cpuset":
+				for _, f := range []string{"cpuset.cpus", "cpuset.mems"} {
+					if b, err := os.ReadFile(filepath.Join(filepath.Dir(dd), f)); err == nil {
+						os.WriteFile(filepath.Join(dd, f), b, 0644)
+					}
+				}
+			}
+		}
+		var cg cgroup.Cgroup
+		switch how {
+		case "New(name)":
+			cg, err = cgroup.New(name, ct)
+		case "handle.New(sub)":
+			cg, err = parent.New("job" + itoa(i))
+		default:
+			cg, err = parent.Nest("job" + itoa(i))
+		}
+		key := fmt.Sprintf("partial: %s of a group that already exists under %v only (of %v)", how, preList, names)
+		res.Case(key+itoa(i), true, "v1-partial")
+		var bad []string
+		if err == nil && cg != nil {
+			if derr := cg.Destroy(); derr != nil {
+				_ = derr
+			}
+		}
+		for _, c := range names {
+			dd := filepath.Join(cgroup.VerifBasePath, c, rel)
+			if pre[c] && containsStr(preList, c) {
+				if !dirExists(dd) {
+					bad = append(bad, fmt.Sprintf("Destroy removed %s, which existed before the handle was created", dd))
+				} else if m := marks[c]; m != "" {
+					f, want, _ := strings.Cut(m, "=")
+					if b, _ := os.ReadFile(filepath.Join(dd, f)); strings.TrimSpace(string(b)) != want {
+						bad = append(bad, fmt.Sprintf("%s of the pre-existing group changed: %q, was %q", f, strings.TrimSpace(string(b)), want))
+					}
+				}
+			}
+			// (a directory the call made in another hierarchy may stay behind when the handle counts as a handle on an
+			// existing group: the property forbids removing what was there before, it does not demand the reverse)
+			syscall.Rmdir(dd)
+		}
+		if len(bad) > 0 {
+			res.Mismatch(Mismatch{Kind: "oracle", What: "a handle on a partly existing group: Destroy never removes a directory that was there before the handle, nor changes its limits (C20_destroy_only_own / C20_never_preexisting)", Input: key + fmt.Sprintf(" -> err=%v", err), Impl: strings.Join(bad, "; "), Oracle: "violates"})
+		}
+	}
+}
+
+func containsStr(l []string, x string) bool {
+	for _, y := range l {
+		if y == x {
+			return true
+		}
+	}
+	return false
 }
